@@ -86,7 +86,7 @@ LogEvalEnd ==
   /\ IsEvent("ee") /\ es[Ev.g].pc \in {"done", "failed"}
   /\ LET st == es[Ev.g]
      IN IF IsOpaqueRes(st.res)
-          THEN /\ Ev.out.k \in {"ok", "err"}
+          THEN /\ Ev.out.k \in {"ok", "err", "panic"}     \* which value is not C04's business; that it is ONE value is
                /\ IF MemoKey(st.res.items[1]) \in DOMAIN memo
                     THEN memo[MemoKey(st.res.items[1])] = Ev.out.h /\ memo' = memo
                     ELSE memo' = (MemoKey(st.res.items[1]) :> Ev.out.h) @@ memo
@@ -128,7 +128,7 @@ Classify(evs, i) ==
                          IN IF ~den.ok THEN "eval-end|expression-should-not-have-compiled|call=" \o CallCode(cc)
                             ELSE LET want == EvalDen(den, call, 0)
                                  IN IF IsOpaqueRes(want)
-                                      THEN (IF e.out.k \in {"ok", "err"} THEN "eval-end|opaque-program-result-changed" ELSE "eval-end|opaque-program-" \o e.out.k)
+                                      THEN (IF e.out.k \in {"ok", "err", "panic"} THEN "eval-end|opaque-program-result-changed" ELSE "eval-end|opaque-program-" \o e.out.k)
                                       ELSE "eval-end|" \o EvalDiff(e.out, want, call.opts, b.t0, e.t1)
                                            \o (IF HasOverride(call.opts) THEN "|override" ELSE "|free")
        [] OTHER -> "malformed|begin-event-not-accepted"
